@@ -478,4 +478,21 @@ def hrunList (grow : Nat → Nat → Nat) : HSt → List Op → List String × O
     | .ok s' out => let r := hrunList grow s' ops; (out :: r.1, r.2)
     | _ => (["stop"], none)
 
+/-- the driver loop with the `caps` observation is `hrunOps` on every input without `caps` lines -/
+theorem hrunOpsC_eq (grow : Nat → Nat → Nat) (ls : List String) (h : ∀ l ∈ ls, toks l ≠ ["caps"]) :
+    ∀ o : Option HSt, hrunOpsC grow o ls = hrunOps grow o ls := by
+  induction ls with
+  | nil => intro o; cases o <;> rfl
+  | cons l ls ih =>
+    have ih' := ih (fun x hx => h x (List.mem_cons_of_mem _ hx))
+    have hl := h l (List.mem_cons_self ..)
+    intro o
+    cases o with
+    | none => simp only [hrunOpsC, hrunOps, ih']
+    | some s =>
+      simp only [hrunOpsC, hrunOps, hl, if_false]
+      cases parseOp (toks l) with
+      | none => simp only [ih']
+      | some op => cases hstep grow s op <;> simp only [ih']
+
 end Golib.C16
